@@ -462,6 +462,9 @@ class SArr:
 
     def tobytes(self, order="C"):
         from .sbytes import SBytes
+        if order not in ("C", "F"):
+            # 'A' / 'K' follow the array's MEMORY layout, which these functional arrays do not track
+            raise Unsupported(f"tobytes(order={order!r}) depends on the memory layout (not modelled)")
         return SBytes.from_array(self, order)
 
     def eq_seq(self, o):
@@ -577,6 +580,8 @@ def unravel(lin, shape, order="C"):
             rem = q
         out.append(rem)
         return tuple(reversed(out))
+    if order != "F":
+        raise Unsupported(f"index order {order!r} depends on the memory layout (not modelled)")
     rem = lin
     for n in dims[:-1]:
         q, r = (c.divmod(rem, n)) if (isinstance(rem, SInt) or isinstance(n, SInt)) else divmod(rem, n)
